@@ -215,3 +215,30 @@ def name_bound_to_call(func_node, callee_suffix: str) -> Optional[str]:
         if isinstance(tgt, ast.Name) and isinstance(val, ast.Call) and call_name(val).endswith(callee_suffix):
             return tgt.id
     return None
+
+
+def carried_locals(loop: ast.For, ignore: Set[str] = frozenset()) -> List[Tuple[str, int]]:
+    """Local names that an iteration of `loop` may read before assigning them although the loop body assigns them on some
+    path: their value then comes from an earlier iteration (or from before the loop).  Definite-assignment dataflow on the
+    CFG of one iteration.  Returns (name, line of the read)."""
+    from ..cfg import CFG, definitely_assigned, stmt_uses, stmt_defs
+    # one iteration, wrapped in a single-pass loop so that `continue` / `break` have a target
+    once = ast.For(target=ast.Name(id="_once_", ctx=ast.Store()), iter=ast.List(elts=[ast.Constant(0)], ctx=ast.Load()),
+                   body=loop.body, orelse=[], lineno=loop.lineno, col_offset=0)
+    mini = ast.FunctionDef(name="body", args=ast.arguments(posonlyargs=[], args=[], kwonlyargs=[], kw_defaults=[], defaults=[]),
+                           body=[once], decorator_list=[], lineno=loop.lineno, col_offset=0)
+    cfg = CFG(mini)
+    assigned = set()
+    for st in cfg.stmts:
+        assigned |= stmt_defs(st)
+    targets = {n.id for n in ast.walk(loop.target) if isinstance(n, ast.Name)}
+    IN = definitely_assigned(cfg, set(targets))
+    out = []
+    seen = set()
+    for st in cfg.stmts:
+        for u in stmt_uses(st):
+            if u.id in assigned and u.id not in IN[st] and u.id not in targets and u.id not in ignore and u.id not in seen:
+                # an augmented assignment `x += ...` reads x by design (accumulator): reported as well, the caller decides
+                seen.add(u.id)
+                out.append((u.id, getattr(u, "lineno", loop.lineno)))
+    return out
